@@ -150,20 +150,24 @@ example :
 
 /-! ### raw byte ranges -/
 
-/-- `text_range` (hence `raw_bytes`) of a node is exactly its source token — string with both
-quotes, number literal, `true`/`false`/`null` — or, for a container, the span from its open bracket to
-its own close bracket, proved:
-* for every value or object key `v` *located* in an index (`LocT`: the token segment `v.toks` sits at
-  BP offset `b` and text offset `a`, with the nodes before it equal to the opens before it), followed
-  by text that does not continue a number and either non-empty or reaching the end of the document —
-  which is the situation of every cursor visited by the walk of `navigate_eq` (shown inside its
-  proof by `val_nav` / `field_step`, each recursive call being made on a located segment);
-* for the root of every document.
-MISSING (hence `_partial`): the statement packaged over "every node of every document", i.e. a
-walker returning the range of each visited cursor together with the tree of expected spans; the
-locatedness of the visited cursors is established in the proof of `navigate_eq` but not exported
-as a theorem. -/
-theorem raw_range_eq_partial (hasAvx2 : Bool) (d : Doc) :
+/-- For every valid document and either SIMD level, `text_range()` (hence `raw_bytes()`) of EVERY node
+visited by the walk from the root — containers, object keys, field values, array elements, in
+pre-order — is exactly the node's source span `spansOf`: the token of a scalar or key (string with
+both quotes, number literal, `true`/`false`/`null`), or for a container the span from its open bracket
+to its own close bracket.  `rangesWalk` is the walk of `navigate_eq` collecting `text_range()`. -/
+theorem raw_range_eq (hasAvx2 : Bool) (d : Doc) (fuel : Nat) (hf : depth d.value ≤ fuel) :
+    rangesWalk (build hasAvx2 false d.text) fuel 0 = (spansOf d.value (blen (wsToks d.ws0))).map some :=
+  rangesWalk_doc hasAvx2 d fuel hf
+
+/-- The same over the composed model (no navigation hypotheses). -/
+theorem raw_range_eq_composed (hasAvx2 simd : Bool) (d : Doc) (hlen : d.text.length < 2 ^ 30) (fuel : Nat)
+    (hf : depth d.value ≤ fuel) :
+    (buildComposed hasAvx2 simd d.text).map (fun x => rangesWalk x fuel 0) =
+      some ((spansOf d.value (blen (wsToks d.ws0))).map some) := by
+  rw [buildComposed_doc hasAvx2 simd d hlen, Option.map_some, rangesWalk_doc hasAvx2 d fuel hf]
+
+/-- Located form: `text_range` at any value or key located in an index (`LocT`), and at the root. -/
+theorem raw_range_located (hasAvx2 : Bool) (d : Doc) :
     textRange (build hasAvx2 false d.text) 0 =
       some ((toksBytes (wsToks d.ws0)).length,
         (toksBytes (wsToks d.ws0)).length + (toksBytes d.value.toks).length) ∧
@@ -171,6 +175,14 @@ theorem raw_range_eq_partial (hasAvx2 : Bool) (d : Doc) :
       LocT T IB BP (v.toks ++ follow) b a → JsonSimple.SafeNext follow → Anch T (v.toks ++ follow) follow a →
       textRange (mkIndex T IB BP) b = some (a, a + (toksBytes v.toks).length)) :=
   ⟨textRange_root hasAvx2 d, fun _ _ _ v follow _ _ h hs ha => textRange_at v follow h hs ha⟩
+
+/-- Non-vacuity: ` [1, {"k":"]"}] ` — all five nodes with their spans. -/
+example :
+    let d : Doc := ⟨[.sp], .arr [] (.num ⟨false, .nonzero 0 [], none, none⟩) []
+      (.cons [.sp] (.obj [] [.plain ⟨0x6B#8, by decide⟩] [] [] (.str [.plain ⟨0x5D#8, by decide⟩]) [] .nil) [] .nil), [.sp]⟩
+    rangesWalk (build true false d.text) 3 0 =
+      [some (1, 15), some (2, 3), some (5, 14), some (6, 9), some (10, 13)] := by
+  decide +kernel
 
 /-- Non-vacuity: ` [1, {"k":"]"}] ` — the root range is bytes 1..15 (whitespace excluded; the `]`
 inside the string does not end the array). -/
